@@ -226,6 +226,42 @@ def run(R):
                                     "stderr": e2.decode("utf-8", "replace")[-400:], "tree": cli.tree_json(tree),
                                     "search": search, "replace": replace,
                                     "diff": repr(cli.diff_snap(snap, al.sha_dict(ref)))[:1200]})
+    # `replace` (and `rename`) restricted to search roots given on the command line: exactly the entries below those roots change -
+    # the same file names with the same text exist OUTSIDE the roots and must stay as they are
+    for i in range(4 if R.tier == "quick" else 40):
+        a, b = g.term_pair()
+        s_, t_ = gen.render(a, "Snake"), gen.render(b, "Snake")
+        body = (f"see {s_} here\n").encode()
+        tree = [{"p": "f.txt", "k": "f", "c": body, "m": 0o644}, {"p": f"{s_}_top.txt", "k": "f", "c": body, "m": 0o644},
+                {"p": "sub", "k": "d", "m": 0o755}, {"p": "sub/f.txt", "k": "f", "c": body, "m": 0o644},
+                {"p": f"sub/{s_}_in.txt", "k": "f", "c": b"plain\n", "m": 0o644},
+                {"p": "sub2", "k": "d", "m": 0o755}, {"p": "sub2/f.txt", "k": "f", "c": body, "m": 0o600},
+                {"p": "other", "k": "d", "m": 0o755}, {"p": "other/f.txt", "k": "f", "c": body, "m": 0o644}]
+        new_body = (f"see {t_} here\n").encode()
+        for cmdname in ("replace", "rename"):
+            for rk, roots in enumerate((["sub"], ["sub", "sub2"], ["./sub"], ["ABS:sub"], ["sub2", "ABS:sub"])):
+                with cli.Sandbox(tree) as sb:
+                    rr = [str(sb.root / x[4:]) if x.startswith("ABS:") else x for x in roots]
+                    base = ["replace", "--no-regex", s_, t_] if cmdname == "replace" else ["rename", s_, t_]
+                    rc, o, e = sb.run(["--no-auto-init", "-y"] + base + rr)
+                    snap = sb.snapshot()
+                    in_roots = {x[4:] if x.startswith("ABS:") else x.lstrip("./") for x in roots}
+                    want = {}
+                    for ent in tree:
+                        top = ent["p"].split("/")[0]
+                        pth, c = ent["p"], ent.get("c")
+                        if top in in_roots and ent["k"] == "f":
+                            c = new_body if c == body else c
+                            pth = pth.replace(s_, t_) if "/" in pth else pth
+                        want[pth] = c
+                    got = {k: ((sb.root / k).read_bytes() if v[0] == "f" else None) for k, v in snap.items()}
+                    R.case(("cli_roots", cmdname, tuple(roots), s_, t_), nontrivial=True)
+                    out["kinds_cli_roots"] = out.get("kinds_cli_roots", 0) + 1
+                    if rc != 0 or got != want:
+                        diff = sorted(k for k in set(got) | set(want) if got.get(k) != want.get(k))
+                        out["fail"].append({"why": f"`{' '.join(base + roots)}` (exit {rc}): the tree is not the one in which exactly the entries below the "
+                                                   f"given roots are rewritten; differing entries: {diff[:5]}", "tree": cli.tree_json(tree),
+                                            "search": s_, "replace": t_, "roots": roots, "stderr": e.decode("utf-8", "replace")[-300:]})
     # case-only path renames (foobar -> foo_bar makes Foobar.rs -> FooBar.rs): apply probes the file system for case sensitivity;
     # afterwards the tree is the plan's meaning and nothing else - no scratch entry of the probe either
     for i in range(max(2, cli_n // 2)):
